@@ -67,6 +67,7 @@ def run(ctx):
         try:
             wire = A.conv_amp_tree(A.raw_amp_parse(text))
             read_tie(text, "documents")
+            layout_tie(wire, "documents")
         except Exception as e:
             res.violation(f"a text in the options grammar is rejected by the grammar: {type(e).__name__}", case, clause="grammar")
             res.case()
@@ -219,6 +220,40 @@ def run(ctx):
 
         batch.add(["amp_text", text], on)
 
+    def layout_tie(doc, stream):
+        """the round-trip theorem C17_read_layout on the real parser: the model renders the statements under a layout drawn from a
+        seed; where the theorem's hypotheses hold, the real parser must read that very text as the statements"""
+        lseed = rng.randrange(1 << 48)
+
+        def on(ans, doc=doc, lseed=lseed, stream=stream):
+            if ans is None:
+                return
+            case = {"kind": "amp-layout", "stream": stream, "layout_seed": lseed, "doc": doc[:6]}
+            if ans[0] != "ok":
+                res.violation("the model cannot render the statements", case, model=ans, clause="model tie: layout theorem")
+                return
+            text, gl, gs = ans[1]
+            res.count("theorem_layouts")
+            if gl != "T":
+                res.violation("a generated layout does not meet the theorem's hypotheses", case, clause="model tie: layout theorem (hypotheses)")
+                return
+            if gs != "T":
+                res.count("theorem_layouts_outside_hypotheses")
+                return
+            res.count("theorem_layouts_in_hypotheses")
+            case["text"] = text
+            try:
+                got = A.conv_amp_tree(A.raw_amp_parse(text))
+            except LarkError as e:
+                res.violation(f"a text the round-trip theorem covers is rejected by the grammar: {type(e).__name__}", case, clause="grammar")
+                return
+            res.case(canon_json(text))
+            if got != doc:
+                res.violation("a text the round-trip theorem covers is not read as the statements it renders", case, impl=got[:4], model=doc[:4],
+                              clause="model tie: layout theorem")
+
+        batch.add(["amp_render_layout", lseed, doc], on)
+
     n_well = 400 if tier == "quick" else 4000
     n_mal = 600 if tier == "quick" else 6000
     wells = []
@@ -228,6 +263,7 @@ def run(ctx):
         t, intended = G.gen_well(rng)
         wells.append(t)
         read_tie(t, "well", intended)
+        layout_tie(intended, "well")
     for _ in range(n_mal):
         t = G.gen_mal(rng, wells)
         if "\x00" not in t:
